@@ -480,7 +480,7 @@ Proof.
   intros HI Hv. destruct val as [z|zs].
   - simpl. apply set_pid_scalar_Inv; auto.
   - destruct zs as [|z [|z' r]].
-    + simpl. destruct (Nat.eqb (count v) 0); auto.
+    + simpl. auto.
     + simpl. apply set_pid_scalar_Inv; auto.
     + unfold set_pid. destruct (Nat.eqb (List.length (z :: z' :: r)) (count v)); simpl; auto.
       destruct HI as [HP He]. split; simpl; auto.
